@@ -49,6 +49,25 @@ for d in sorted(glob.glob(os.path.join(here, "seeded", "*"))):
     out.append("| %s | %s | %s | %s |" % (os.path.basename(d), short(m.get("summary", ""), 230), short(m.get("needs_to_manifest", ""), 200), caught))
 out.append("")
 out.append("Caught %d of %d confirmed seeds.\n" % (nc, nt))
+out.append("### 8.3 Behaviour-preserving refactors (independent \"maintainer\" sub-agents) — every check must stay at exit 0\n")
+out.append("| Refactor | kind | what it changes | checks not at exit 0 (as evaluated when the refactor came in) |")
+out.append("|---|---|---|---|")
+rn = rb = 0
+for d in sorted(glob.glob(os.path.join(here, "refactors", "*"))):
+    try:
+        m = json.load(open(os.path.join(d, "meta.json")))
+        ev = json.load(open(os.path.join(d, "eval.json")))
+    except Exception:
+        continue
+    rn += 1
+    bad = ev.get("non_zero", {})
+    if bad:
+        rb += 1
+    res = "; ".join("%s exit %d" % (p, r["exit"]) for p, r in sorted(bad.items())) or "none"
+    s1 = re.sub(r"\s+", " ", str(m.get("summary", ""))).replace("|", "/")
+    out.append("| %s | %s | %s | %s |" % (os.path.basename(d), str(m.get("kind", "")).replace("|", "/")[:40], s1 if len(s1) <= 200 else s1[:199] + "…", res))
+out.append("")
+out.append("%d of %d refactors left every check at exit 0 at first evaluation; the others are discussed in §12.\n" % (rn - rb, rn))
 text = "\n".join(out)
 p = os.path.join(here, "DESIGN.md")
 s = open(p).read()
